@@ -339,10 +339,8 @@ class screen:
     def scroll_constrain (self):
         '''This keeps the scroll region within the screen region.'''
 
-        if self.scroll_row_start <= 0:
-            self.scroll_row_start = 1
-        if self.scroll_row_end > self.rows:
-            self.scroll_row_end = self.rows
+        self.scroll_row_start = constrain(self.scroll_row_start, 1, self.rows)
+        self.scroll_row_end = constrain(self.scroll_row_end, 1, self.rows)
 
     def scroll_screen (self): # <ESC>[r
         '''Enable scrolling for entire display.'''
